@@ -19,7 +19,7 @@ pub fn hdr_out(bytes: &[u8]) -> String {
             let dur = h.valid_duration_fields();
             let iss = h.issue_daytime_fields();
             format!(
-                "som {} off={} par={} vot={} org={} evt={} locs={} dur={}:{} iss={}:{}:{} call={}",
+                "som {} off={} par={} vot={} org={} evt={} locs={} dur={}:{} iss={}:{}:{} call={} orgk={:?} natl={}",
                 hex(h.as_str().as_bytes()),
                 sameold::verif::message::header_offset_time(&h),
                 h.parity_error_count(),
@@ -32,7 +32,9 @@ pub fn hdr_out(bytes: &[u8]) -> String {
                 iss.0,
                 iss.1,
                 iss.2,
-                hex(h.callsign().as_bytes())
+                hex(h.callsign().as_bytes()),
+                h.originator(),
+                h.is_national() as u8
             )
         }
     }
@@ -204,6 +206,41 @@ pub fn run(ctx: &Ctx) {
         }
     }
     out.count_n("neighbourhood_strings_hashed", nb_total);
+    // field semantics: originator class and national flag on directed headers (WXR with callsigns
+    // around the "EC/" marker; sole location 000000 with national and near-national event codes)
+    for _ in 0..(if ctx.tier_thorough { 8000 } else { 600 }) {
+        let mut g = gen_header_any(&mut rng);
+        if rng.chance(1, 2) {
+            g.org = "WXR".to_owned();
+        }
+        if rng.chance(1, 3) {
+            g.call = (*rng.pick(&[
+                "EC/GC/CA", "KEC/NWS", " EC/GC/C", "WXEC/NWS", "NWS/EC/", "EC/", "ec/GC/CA", "EC ", "E/C/GC/A", "XEC/", "EC/X", "/EC/",
+            ]))
+            .to_owned();
+        }
+        match rng.below(6) {
+            0 | 1 => g.locs = vec!["000000".to_owned()],
+            2 => g.locs = vec!["000000".to_owned(), "000000".to_owned()],
+            3 => g.locs = vec!["000000".to_owned(), digits(&mut rng, 6)],
+            _ => {}
+        }
+        if rng.chance(1, 2) {
+            g.evt = (*rng.pick(&["EAN", "NIC", "NAT", "NPT", "NST", "EAT", "NPX", "RWT", "EAW", "NIT"])).to_owned();
+        }
+        let mut v = g.text().into_bytes();
+        if rng.chance(1, 3) {
+            v.extend(trailing(&mut rng));
+        }
+        let op = format!("hdr {}", hex(&v));
+        let res = out.run(&op, true);
+        out.spec(&format!("spec.c06.hdr {} => {}", hex(&v), res));
+        for w in res.split(' ') {
+            if w.starts_with("orgk=") || w.starts_with("natl=") {
+                out.count(&format!("field_semantics:{}", w));
+            }
+        }
+    }
     // unstructured
     for _ in 0..(if ctx.tier_thorough { 20000 } else { 2000 }) {
         let n = rng.range(0, 60) as usize;
